@@ -92,3 +92,90 @@ def mon_c06(case):
 
 def pkeys_lru(pents, stamp):
     return min(pents, key=lambda e: stamp.get(e[0], -1))[0]
+
+
+# ---------------------------------------------------------------------------------------------
+# generic snapshot parsing: kind -> (header length, list names, which lists are resident)
+LAYOUT = {
+    0: (1, ["list"], [0]),
+    1: (2, ["probationary", "protected"], [0, 1]),
+    2: (3, ["recent", "frequent", "ghost"], [0, 1]),
+    3: (2, ["recent", "recent_evict", "frequent", "frequent_evict"], [0, 2]),
+    4: (3, ["window", "probationary", "protected"], [0, 1, 2]),
+}
+
+
+def parse_snap(kind, snap):
+    """-> (header, [entries per list], wf, rest) or None"""
+    if kind not in LAYOUT or not snap:
+        return None
+    h, names, _ = LAYOUT[kind]
+    hdr = snap[:h]
+    i = h
+    lists = []
+    for _ in names:
+        if i >= len(snap):
+            return None
+        n = snap[i]
+        i += 1
+        lists.append([(snap[i + 2 * j], snap[i + 2 * j + 1]) for j in range(n)])
+        i += 2 * n
+    wf = snap[i] if i < len(snap) else 1
+    return hdr, lists, wf, snap[i + 1:]
+
+
+def list_caps(kind, hdr):
+    """capacity of each list, and the resident capacity"""
+    if kind == 0:
+        return [hdr[0]], hdr[0]
+    if kind == 1:
+        return [hdr[0], hdr[1]], hdr[0] + hdr[1]
+    if kind == 2:
+        return [hdr[0], hdr[0], hdr[2]], hdr[0]
+    if kind == 3:
+        return [hdr[0]] * 4, hdr[0]
+    if kind == 4:
+        return [hdr[0], hdr[1], hdr[2]], sum(hdr)
+    return [], 0
+
+
+def mon_c01(case):
+    """capacity bounds, partition bounds, one partition per key, len/is_empty/contains accounting"""
+    kind = case["kind"]
+    if kind not in LAYOUT:
+        return None
+    resident_idx = LAYOUT[kind][2]
+    names = LAYOUT[kind][1]
+    for step, (op, out, cb, acct, snap) in enumerate(case["lines"], 1):
+        if not op or op[0] in (98, 99) or out == [-1000]:
+            continue
+        p = parse_snap(kind, snap)
+        if p is None:
+            return step, "unreadable snapshot"
+        hdr, lists, wf, _ = p
+        caps, rescap = list_caps(kind, hdr)
+        for nm, l, c in zip(names, lists, caps):
+            if len(l) > c:
+                return step, f"partition {nm} holds {len(l)} entries, bound {c}"
+        nres = sum(len(lists[i]) for i in resident_idx)
+        if nres > rescap:
+            return step, f"{nres} resident entries exceed cap() = {rescap}"
+        if kind == 3 and not (0 <= hdr[1] <= hdr[0]):
+            return step, f"ARC p = {hdr[1]} outside [0, {hdr[0]}]"
+        allkeys = [k for l in lists for k, _ in l]
+        if len(set(allkeys)) != len(allkeys):
+            dup = [k for k in set(allkeys) if allkeys.count(k) > 1]
+            return step, f"key(s) {dup} held in more than one partition / twice"
+        if wf != 1:
+            return step, "structural audit of the internal lists failed"
+        reskeys = {k for i in resident_idx for k, _ in lists[i]}
+        c = op[0]
+        if c == 8 and out != [len(reskeys)]:
+            return step, f"len() = {out} but {len(reskeys)} distinct keys are resident"
+        if c == 10 and out != [int(not allkeys)]:
+            return step, f"is_empty() = {out} with retained keys {allkeys}"
+        if c == 5 and out != [int(op[1] in reskeys)]:
+            return step, f"contains({op[1]}) = {out}, resident keys {sorted(reskeys)}"
+        if c == 9 and out != [rescap]:
+            return step, f"cap() = {out}, configured {rescap}"
+    return None
